@@ -62,6 +62,11 @@ pub const ORIGINS: &[&str] = &[
     "http://A.Test:8080/",
     "HTTPS://A.TEST:8080/",
     "http://A.test:443/",
+    // user information in the authority: it names no other server - host and port still do
+    "http://svc@u1.test:8080/",
+    "http://svc@u2.test:8080/",
+    "http://svc@u1.test:9090/",
+    "https://svc:pw@u2.test/",
 ];
 
 pub const NEAR_MISS_FROM: usize = 6;
@@ -539,7 +544,7 @@ impl Future for HandshakeFuture {
             Tri::Ok => {
                 let id = w.conns.len();
                 let okey = w.dials[did].okey.clone();
-                let shareable = w.dials[did].h2req || w.dials[did].alpn_h2;
+                let shareable = !w.cfg.single_use && (w.dials[did].h2req || w.dials[did].alpn_h2);
                 w.dials[did].stage = DStage::Done;
                 w.dials[did].end_step = Some(st);
                 w.dials[did].conn = Some(id);
@@ -977,6 +982,11 @@ pub struct PoolCfg {
     /// from the URI's; the pool must still key connections by the URI)
     #[serde(default)]
     pub caller_host: u8,
+    /// every connection is single-use (`can_share() == false`) whatever version was asked for, as
+    /// with a custom `Protocol` (the crate's own `MockTransport::single()` behaves like this): requests
+    /// that waited on an "HTTP/2" attempt are then served one after the other
+    #[serde(default)]
+    pub single_use: bool,
 }
 fn yes() -> bool {
     true
@@ -2286,6 +2296,7 @@ pub fn cfg_plain_strategy() -> impl Strategy<Value = PoolCfg> {
         req_timeout_ms: None,
         open_is_ready,
         caller_host: 0,
+        single_use: false,
     })
 }
 
@@ -2297,6 +2308,7 @@ pub fn cfg_timeout_strategy() -> impl Strategy<Value = PoolCfg> {
         req_timeout_ms: Some(t),
         open_is_ready: true,
         caller_host: 0,
+        single_use: false,
     })
 }
 
@@ -2308,6 +2320,7 @@ pub fn cfg_expiry_strategy() -> impl Strategy<Value = PoolCfg> {
         req_timeout_ms: None,
         open_is_ready: true,
         caller_host: 0,
+        single_use: false,
     })
 }
 
@@ -2354,7 +2367,7 @@ pub fn expiry_scenario_strategy() -> impl Strategy<Value = PoolCase> {
             for j in 0..probes {
                 ops.push(Op::Poll(((j * 65536) / probes) as u16 + 1));
             }
-            PoolCase { cfg: PoolCfg { idle_timeout_ms: timeout, max_idle: 32, cont, req_timeout_ms: None, open_is_ready: true, caller_host: 0 }, ops }
+            PoolCase { cfg: PoolCfg { idle_timeout_ms: timeout, max_idle: 32, cont, req_timeout_ms: None, open_is_ready: true, caller_host: 0, single_use: false }, ops }
         })
 }
 
@@ -2385,7 +2398,7 @@ pub fn expiry_whole_second_strategy() -> impl Strategy<Value = PoolCase> {
         for j in 0..probes {
             ops.push(Op::Poll(((j * 65536) / probes) as u16 + 1));
         }
-        PoolCase { cfg: PoolCfg { idle_timeout_ms: timeout, max_idle: 32, cont, req_timeout_ms: None, open_is_ready, caller_host: 0 }, ops }
+        PoolCase { cfg: PoolCfg { idle_timeout_ms: timeout, max_idle: 32, cont, req_timeout_ms: None, open_is_ready, caller_host: 0, single_use: false }, ops }
     })
 }
 
@@ -2411,7 +2424,7 @@ pub fn many_origins_strategy(max_ops: usize) -> impl Strategy<Value = PoolCase> 
     )
         .prop_map(|(n, mut ops, cont)| {
             ops.insert(0, Op::Sweep { n });
-            PoolCase { cfg: PoolCfg { idle_timeout_ms: None, max_idle: 32, cont, req_timeout_ms: None, open_is_ready: true, caller_host: 0 }, ops }
+            PoolCase { cfg: PoolCfg { idle_timeout_ms: None, max_idle: 32, cont, req_timeout_ms: None, open_is_ready: true, caller_host: 0, single_use: false }, ops }
         })
 }
 
@@ -2450,7 +2463,7 @@ pub fn near_origins_strategy(wt: Weights, max_ops: usize) -> impl Strategy<Value
 /// combination in which a released-but-busy connection, a closed idle entry and the idle bound meet.
 pub fn cfg_small_idle_strategy() -> impl Strategy<Value = PoolCfg> {
     (prop_oneof![Just(None), Just(Some(0u64)), Just(Some(3_600_000u64))], prop_oneof![Just(1usize), Just(2)], any::<bool>(), prop_oneof![1 => Just(true), 3 => Just(false)])
-        .prop_map(|(t, m, cont, open_is_ready)| PoolCfg { idle_timeout_ms: t, max_idle: m, cont, req_timeout_ms: None, open_is_ready, caller_host: 0 })
+        .prop_map(|(t, m, cont, open_is_ready)| PoolCfg { idle_timeout_ms: t, max_idle: m, cont, req_timeout_ms: None, open_is_ready, caller_host: 0, single_use: false })
 }
 
 pub fn cfg_any_strategy() -> impl Strategy<Value = PoolCfg> {
@@ -2460,7 +2473,7 @@ pub fn cfg_any_strategy() -> impl Strategy<Value = PoolCfg> {
         any::<bool>(),
         prop_oneof![2 => Just(true), 1 => Just(false)],
     )
-        .prop_map(|(t, m, cont, open_is_ready)| PoolCfg { idle_timeout_ms: t, max_idle: m, cont, req_timeout_ms: None, open_is_ready, caller_host: 0 })
+        .prop_map(|(t, m, cont, open_is_ready)| PoolCfg { idle_timeout_ms: t, max_idle: m, cont, req_timeout_ms: None, open_is_ready, caller_host: 0, single_use: false })
 }
 
 // ------------------------------------------------------------------------------------------------
